@@ -1546,10 +1546,12 @@ func (r *Resolvable) fieldNodeKindAllowsSeek(field *Field) bool {
 			return false
 		}
 
-		// Skip array if its item type is not an object kind.
-		if field.Value.(*Array).Item.NodeKind() != NodeKindObject {
-			// we could have a nested array,
-			// but we do not care for now
+		// Skip array if its (innermost) item type is not an object kind: lists of lists are looked into as well.
+		item := field.Value.(*Array).Item
+		for item.NodeKind() == NodeKindArray {
+			item = item.(*Array).Item
+		}
+		if item.NodeKind() != NodeKindObject {
 			return false
 		}
 	}
